@@ -206,6 +206,48 @@ def run_manager(ops):
         loop.close()
 
 
+def second_session_probe(host, second):
+    """One APIClient, two sessions. In the first the name resolves; in the second nothing resolves (mDNS `second[0]`, OS resolver
+    `second[1]`): the attempt must fail with a connection error and must not reach the socket layer with addresses of its own."""
+    from vlib import conntrace, simnet
+
+    async def go(loop):
+        from aioesphomeapi import host_resolver as hr
+        from aioesphomeapi.client import APIClient
+        name = host.partition(".")[0]
+        FakeInfo.table = {name: ([], [3])}
+        FakeInfo.calls = []
+        os_state = {"r": [4]}
+
+        async def fake_getaddrinfo(h, port, **kw):
+            r = os_state["r"]
+            if r is None:
+                raise OSError("getaddrinfo failure")
+            return [(socket.AF_INET, socket.SOCK_STREAM, socket.IPPROTO_TCP, "", (v4(n), port)) for n in r]
+        net = simnet.Net(loop)
+        outs = []
+        with net.patched(resolver=False), patch.object(hr, "AsyncServiceInfo", FakeInfo), \
+                patch("aioesphomeapi.zeroconf.AsyncZeroconf", FakeAsyncZeroconf), patch.object(loop, "getaddrinfo", fake_getaddrinfo):
+            cli = APIClient(host, 6053, None)
+            for k in range(2):
+                if k == 1:
+                    FakeInfo.table = {name: (None, None) if second[0] == "err" else ([], [])}
+                    os_state["r"] = None if second[1] == "err" else []
+                n_sock = len(net.sockets)
+                try:
+                    await cli.start_connection()
+                    outs.append(("ok", len(net.sockets) - n_sock))
+                except Exception as e:  # noqa: BLE001
+                    outs.append((conntrace.exc_name(e), len(net.sockets) - n_sock))
+                try:
+                    await cli.disconnect(force=True)
+                except Exception:  # noqa: BLE001
+                    pass
+                await simnet.drain(loop)
+        return outs
+    return simnet.run(go)
+
+
 def run(rep, tier, seed):
     rng = random.Random(seed)
     rep.coverage["rule"] = (
@@ -293,11 +335,27 @@ def run(rep, tier, seed):
     if disagreements and not rep.violations:
         rep.violations.append(("C20/correspondence", "Model/Resolver.v and the implementation disagree; no violation of C20 found",
                                {"kind": "no-failing-input-found", "obligation": "correspondence Resolver.resolve / zrun ~ host_resolver.py, zeroconf.py", "first_disagreements": disagreements[:4]}))
+    for host in ("dev.local", "dev", "printer.example.com"):
+        for second in (("none", "empty"), ("err", "empty"), ("none", "err"), ("err", "err")):
+            outs = second_session_probe(host, second)
+            rep.case(("second-session", host, second), True, sample={"second_session": host, "second_lookup": second, "outcomes": outs})
+            rep.bump("probe:second-session")
+            replay = {"kind": "second-session", "host": host, "second": list(second)}
+            if outs[0] != ("ok", 1):
+                rep.violation("C20/second-session-setup", f"{host}: the first session (name resolves) ended {outs[0]}", replay)
+            elif outs[1][0] == "ok" or outs[1][1] != 0 or not outs[1][0].startswith("L."):
+                rep.violation("C20/nothing-resolves", f"{host}: second session of the same client, mDNS {second[0]} / OS resolver {second[1]}: start_connection() "
+                              f"ended {outs[1][0]} after {outs[1][1]} TCP connect attempt(s); nothing resolved, a connection error is due and no address may reach the socket layer", replay)
     if not proofs_ok and not rep.violations:
         rep.proof_broken(rep.broken[0], rep.broken[1])
 
 
 def replay(path):
+    d0 = json.loads(open(path).read()).get("replay", {})
+    if d0.get("kind") == "second-session":
+        common.setup_impl_path()
+        print(second_session_probe(d0["host"], tuple(d0["second"])))
+        return 0
     common.setup_impl_path()
     d = json.loads(open(path).read())["replay"]
     if "manager_ops" in d:
